@@ -232,7 +232,18 @@ func runView(v View, seed uint64, n int, driver, corpusDir string) *Report {
 	rep.CorpusCases = len(lines)
 	root := NewRng(seed ^ 0x5eed0000)
 	for i := 0; i < n; i++ {
-		lines = append(lines, v.Gen(root.Fork(), i))
+		// some generators (sim) execute the real code while they build a case
+		var l string
+		if !withWatchdog(caseDeadline, func() { l = v.Gen(root.Fork(), i) }) {
+			hangLine = fmt.Sprintf("%s (generated case %d of seed %d did not finish: the real code did not return, or allocated without end)", v.Name(), i, seed)
+			if p, ok := v.(interface{ PartialLine() string }); ok {
+				hangLine = p.PartialLine()
+			}
+			rep.Hang = hangLine
+			rep.Cases = len(lines)
+			return rep
+		}
+		lines = append(lines, l)
 	}
 	// VERIF_REPEAT=k (soak runs only): every line is executed k times - Go's map iteration order and scheduling
 	// differ between executions, so a choice the harness reconstructs wrongly shows up as a disagreement
@@ -341,12 +352,40 @@ func withWatchdog(d time.Duration, f func()) bool {
 		defer close(done)
 		f()
 	}()
-	select {
-	case <-done:
-		return true
-	case <-time.After(d):
-		return false
+	deadline := time.After(d)
+	tick := time.NewTicker(50 * time.Millisecond)
+	defer tick.Stop()
+	for {
+		select {
+		case <-done:
+			return true
+		case <-deadline:
+			return false
+		case <-tick.C:
+			// a case that makes the real code allocate without end (an event loop spinning on a buffer it keeps
+			// growing) is stopped like one that does not return, before it takes the machine's memory
+			if rssBytes() > memCeiling {
+				return false
+			}
+		}
 	}
+}
+
+// memCeiling: resident memory beyond which a case counts as running away (the largest legitimate cases - multi-megabyte
+// replies, 2^16-slot tables - stay far below 1 GB)
+const memCeiling = 6 << 30
+
+func rssBytes() uint64 {
+	b, err := os.ReadFile("/proc/self/statm")
+	if err != nil {
+		return 0
+	}
+	f := strings.Fields(string(b))
+	if len(f) < 2 {
+		return 0
+	}
+	pages, _ := strconv.ParseUint(f[1], 10, 64)
+	return pages * uint64(os.Getpagesize())
 }
 
 func writeReport(path string, rep *Report) {
